@@ -467,6 +467,10 @@ fn run(ctx: &mut Ctx) {
         ords.push(used.join("\n| "));
         ords.push(used.join("\n# "));
         ords.push(format!("- {}", used.join("\n- ")));
+        // a quoted comment that spans lines and names the variables in another order
+        let other: Vec<String> = used.iter().rev().cloned().collect();
+        ords.push(format!("\"previous order:\n{}\"\n{}\n", other.join(" "), used.join(" ")));
+        ords.push(format!("{}\n\"was:\n{}\nbefore\"", used.join("\n"), other.join("\n")));
         for o in ords {
             idx += 1;
             if ctx.mine(idx) {
